@@ -363,8 +363,8 @@ Definition is_adopt (c : change) : bool :=
 Definition has_adopt (pl : list change) : bool := existsb is_adopt pl.
 
 (* target_manifest.rs manifests_missing_for_desired: a used root (one that is the best root of some
-   desired file) needs its manifest (re)written when no manifest file exists, when the chosen one
-   (preferred name, else legacy) is unusable for the target, or when it does not list exactly the
+   desired file) needs its manifest (re)written when no per-target manifest file exists (a legacy-named
+   one is migrated), when it is unusable for the target, or when it does not list exactly the
    root's desired files (relative path, content); an unused root's preferred manifest that still
    lists entries is stale too — the last three cases since /repo commit "a stale or
    unreadable target manifest is rewritten by the next deploy" *)
@@ -377,9 +377,14 @@ Fixpoint manifests_missing_from (i : nat) (rs roots : list root) (D : list dfile
   | [] => false
   | r :: rest =>
     (if existsb (fun d => idx_is (best_root_idx roots (dtarget d) (dpath d)) i) D
-     then match read_manifest f r with
-          | Some es => negb (entries_same es (per_root roots D i r))
+     then (* a root that holds desired files needs its per-target manifest (a legacy-named one, even an
+             exact one, is migrated), usable and listing exactly the root's desired files *)
+          match f (mf_path r) with
           | None => true
+          | Some _ => match read_manifest f r with
+                      | Some es => negb (entries_same es (per_root roots D i r))
+                      | None => true
+                      end
           end
      else (* a root without desired files: an existing preferred-name manifest that is unusable or
              still lists entries is stale; without one, a legacy-named manifest of this target that
